@@ -499,4 +499,15 @@ var Alphabet = []TypeAtom{
 	{"LDeep2", "", "struct-local-deep"},
 	{"LInnerG", "", "struct-local-getter-names"},
 	{"ext.InnerG", "InnerG", "struct-imported-getter-names"},
+	// unnamed composite element types that mention a named type (the element type is printed as a whole)
+	{"[][]LInt", "", "slice-composite-over-named"},
+	{"[][]ext.MyInt", "[][]MyInt", "slice-composite-over-named"},
+	{"[]map[string]LInt", "", "slice-composite-over-named"},
+	{"[]map[ext.MyStr]*ext.Inner", "[]map[MyStr]*Inner", "slice-composite-over-named"},
+	{"[]*[]LInt", "", "slice-composite-over-named"},
+	{"[]chan ext.MyInt", "[]chan MyInt", "slice-composite-over-named"},
+	{"[]func(LInt) ext.MyInt", "", "slice-composite-over-named"},
+	{"[][2]LStatus", "", "slice-composite-over-named"},
+	{"[]struct{ V LInt }", "", "slice-composite-over-named"},
+	{"[]**LInner", "", "slice-composite-over-named"},
 }
